@@ -82,21 +82,23 @@ def fanAdj (s t : Face) : Bool := sharesEdge s.2 t.2
 
 /-- The inner `for i := 0; i < len(unvisited); i++` loop of `SingularVertices` with its
 swap-with-last removal: returns (what stays unvisited, what was pushed — both in Go's order). -/
-def sweep {α : Type} (p : α → Bool) : List α → List α × List α
-  | [] => ([], [])
-  | x :: rest =>
+def sweepAux {α : Type} (p : α → Bool) : Nat → List α → List α × List α
+  | 0, _ => ([], [])
+  | _ + 1, [] => ([], [])
+  | n + 1, x :: rest =>
     if p x then
       match rest with
       | [] => ([], [x])
       | a :: b =>
-        let r := sweep p ((a :: b).getLast (List.cons_ne_nil a b) :: (a :: b).dropLast)
+        let r := sweepAux p n ((a :: b).getLast (List.cons_ne_nil a b) :: (a :: b).dropLast)
         (r.1, x :: r.2)
     else
-      let r := sweep p rest
+      let r := sweepAux p n rest
       (x :: r.1, r.2)
-termination_by l => l.length
-decreasing_by
-  all_goals simp [List.length_dropLast]
+
+/-- The loop runs at most `len(unvisited)` times (each iteration either advances `i` or shrinks
+the slice): the fuel of `sweepAux`. -/
+def sweep {α : Type} (p : α → Bool) (l : List α) : List α × List α := sweepAux p l.length l
 
 /-- The outer `for len(unvisited) > 0 && len(visitQueue) > 0` loop: `stack` has its top at the
 head; returns the faces never reached. -/
